@@ -51,6 +51,7 @@ typedef struct KSock {
     int rst;                       /* connection reset */
     int sent_after_peer_close;
     int shut_rd, shut_wr, so_error;
+    int conn_reported;             /* the completion of the connection has been reported by a connect() call (Linux: the first connect() after an asynchronous completion returns 0, later ones EISCONN) */
     int linger0;                   /* SO_LINGER {on, 0}: close is abortive (the peer sees a reset); inherited by accepted sockets as on Linux */
     int backlog, aq[8], naq;
     int dflt_port; int has_dflt;   /* datagram connect() */
@@ -217,7 +218,7 @@ int __wrap_connect(int fd, const struct sockaddr *a, socklen_t l)
     if (l < sizeof(struct sockaddr_in) || a->sa_family != s->family) { errno = EAFNOSUPPORT; return -1; }
     port = addr_port(a);
     if (s->type == SOCK_DGRAM) { if (!s->bound) do_bind(s, 0); s->has_dflt = 1; s->dflt_port = port; return 0; }
-    if (s->state == S_CONNECTED) { errno = EISCONN; return -1; }
+    if (s->state == S_CONNECTED) { if (!s->conn_reported) { s->conn_reported = 1; return 0; } errno = EISCONN; return -1; }
     if (s->state == S_CONNECTING) { errno = EALREADY; return -1; }
     if (s->state == S_LISTEN) { errno = EISCONN; return -1; }
     ls = find_listener(s->family, port);
@@ -228,11 +229,12 @@ int __wrap_connect(int fd, const struct sockaddr *a, socklen_t l)
     if (i == NSOCK) { errno = ECONNREFUSED; return -1; }
     srv = &S[i]; KZERO(srv, sizeof *srv);
     srv->state = S_CONNECTED; srv->family = ls->family; srv->type = SOCK_STREAM; srv->proto = ls->proto; srv->peer = (int)(s - S); srv->bound = 2; srv->port = ls->port; srv->local = ls->local; srv->locallen = ls->locallen; srv->keepalive = ls->keepalive; srv->sndbuf = ls->sndbuf; srv->rcvbuf = ls->rcvbuf;
-    srv->linger0 = ls->linger0;
+    srv->linger0 = ls->linger0; srv->conn_reported = 1;
     ls->aq[ls->naq++] = i;
     s->peer = i; s->state = S_CONNECTED;
     if (ksim_publish) { ksim_publish(ls, 4); ksim_publish(s, 4); }
     if (s->nonblock && !ksim_connect_immediate) { errno = EINPROGRESS; return -1; }
+    s->conn_reported = 1;
     return 0;
 }
 int __wrap_accept(int fd, struct sockaddr *a, socklen_t *l)
